@@ -480,3 +480,123 @@ same_edges = FunctionContract(
             ("not utils.are_different(edges_self[edge], edges_other[edge])", "utils.are_different(edges_self[edge], edges_other[edge])")],
 )
 CONTRACTS.append(same_edges)
+
+
+# ------------------------------------------------------------------ SortMoleculeAtoms.run_molecule: the atoms end up in sorted order
+FS = 'vermouth/processors/sort_molecule_atoms.py'
+SKeyN, SAttr, SVal = TKey('SKeyN'), TKey('SAttr'), TKey('SVal')
+
+
+def setup_sma(cx):
+    from pyvc.builtins import _int
+    eng = cx.eng
+    order = cx.val('NODE_ORDER', TSeq(SKeyN))                # sorted(molecule, key=...): an arrangement of the molecule's atoms
+    cx.spec_env.update(NODE_ORDER=order, SKeyN=SKeyN, SAttr=SAttr)
+    st = TSeq(SKeyN)
+    n = st.len(order.e)
+    POS = cx.heap('POS', cx.box('POS', TMap(SKeyN, TInt)))   # molecule._node (an ordered dictionary): atom -> its place in the order
+    ATTR = cx.heap('ATTR', cx.box('ATTR', TMap(TTuple(SKeyN, SAttr), TInt)))      # integer attributes written by this processor
+    target = cx.val('TARGET', TOpt(SAttr))
+    sortby = Obj('sortby_attrs')
+    cx.spec_env['TARGET'] = target
+    molecule = Obj('Molecule')
+    keyfunc = Obj('_keyfunc')
+
+    def partial_(e, f, *a, **k):
+        return Obj('partial', func=f, args=a, kw=k)
+
+    def sorted_(e, xs, key=None, reverse=False):
+        ok = xs is molecule and isinstance(key, Obj) and key.cls == 'partial' and key.attrs['func'] is keyfunc and \
+            len(key.attrs['args']) == 1 and key.attrs['args'][0] is molecule and set(key.attrs['kw']) == {'attrs'} and \
+            key.attrs['kw']['attrs'] is sortby and not reverse
+        e.oblige(ok, 'sorted:the-atoms-of-this-molecule-by-the-attributes-asked-for')
+        return order
+
+    def move_to_end(e, k):
+        # OrderedDict.move_to_end(k): k becomes the last one; those behind it move up by one; the others stay
+        ke = to_z3(k, SKeyN)
+        mt = POS.ty
+        e.maybe_raise(mt.has(POS.e, ke), 'KeyError')
+        new = e.fresh_val(mt, 'moved')
+        x = z3.Const('mx', SKeyN.sort())
+        p = mt.at(POS.e, ke)
+        e.assume(z3.ForAll([x], z3.And(mt.has(new.e, x) == mt.has(POS.e, x),
+                                       mt.at(new.e, x) == z3.If(x == ke, mt.n(POS.e) - 1,
+                                                                z3.If(mt.at(POS.e, x) > p, mt.at(POS.e, x) - 1, mt.at(POS.e, x))))))
+        e.assume(mt.n(new.e) == mt.n(POS.e))
+        POS.e = new.e
+
+    def node(e, k):
+        def set_(e2, a, v):
+            from pyvc.builtins import setitem
+            setitem(e2, ATTR, (k, a), v)
+        return Obj('atomdict', __setitem__=Builtin(set_, 'node[]='))
+    cx.spec_env['partial'] = Builtin(partial_, 'partial')
+    cx.spec_env['sorted'] = Builtin(sorted_, 'sorted')
+    cx.spec_env['_keyfunc'] = keyfunc
+    molecule.attrs.update(_node=Obj('OrderedDict', move_to_end=Builtin(move_to_end, 'move_to_end')),
+                          nodes=Obj('NodeView', __getitem__=Builtin(node, 'molecule.nodes[]')))
+    return dict(self=Obj('SortMoleculeAtoms', sortby_attrs=sortby, target_attr=target), molecule=molecule)
+
+
+SMA_PRE = [
+    # sorted() returns an arrangement of the molecule's atoms: each atom once; the ordered dictionary holds exactly them, at the places 0..n-1
+    "len(POS) == len(NODE_ORDER)",
+    "forall(lambda a, b: implies(0 <= a and a < b and b < len(NODE_ORDER), NODE_ORDER[a] != NODE_ORDER[b]))",
+    "forall(lambda a: implies(0 <= a and a < len(NODE_ORDER), NODE_ORDER[a] in POS and 0 <= POS[NODE_ORDER[a]] and POS[NODE_ORDER[a]] < len(NODE_ORDER)))",
+    "forall(lambda a, b: implies(0 <= a and a < b and b < len(NODE_ORDER), POS[NODE_ORDER[a]] != POS[NODE_ORDER[b]]))",
+]
+sort_atoms = FunctionContract(
+    FS, 'SortMoleculeAtoms.run_molecule', 'C03', setup=setup_sma, requires=SMA_PRE,
+    ensures=[
+        # afterwards the molecule lists its atoms in exactly the order sorted() gave - the keys are untouched - and, when a target
+        # attribute was asked for, the atom at place j carries j + 1 there; nothing else is written
+        "forall(lambda j: implies(0 <= j and j < len(NODE_ORDER), NODE_ORDER[j] in POS and POS[NODE_ORDER[j]] == j))",
+        "len(POS) == len(old(POS))",
+        "implies(TARGET is not None, forall(lambda j: implies(0 <= j and j < len(NODE_ORDER), ATTR[(NODE_ORDER[j], payload(TARGET))] == j + 1)))",
+        "forall(lambda k, a: implies((k, a) in ATTR and not ((k, a) in old(ATTR)), TARGET is not None and a == payload(TARGET)), SKeyN, SAttr)",
+        "implies(TARGET is None, forall(lambda k, a: ((k, a) in ATTR) == ((k, a) in old(ATTR)) and ATTR[(k, a)] == old(ATTR)[(k, a)], SKeyN, SAttr))",
+    ],
+    modifies=['POS', 'ATTR'],
+    loops={'L1': LoopSpec(
+        inv=["len(POS) == len(NODE_ORDER)",
+             "forall(lambda j: implies(0 <= j and j < _i, NODE_ORDER[j] in POS and POS[NODE_ORDER[j]] == len(NODE_ORDER) - _i + j))",
+             "forall(lambda j: implies(_i <= j and j < len(NODE_ORDER), NODE_ORDER[j] in POS and 0 <= POS[NODE_ORDER[j]] and POS[NODE_ORDER[j]] < len(NODE_ORDER) - _i))",
+             "forall(lambda a, b: implies(_i <= a and a < b and b < len(NODE_ORDER), POS[NODE_ORDER[a]] != POS[NODE_ORDER[b]]))",
+             "implies(TARGET is not None, forall(lambda j: implies(0 <= j and j < _i, ATTR[(NODE_ORDER[j], payload(TARGET))] == j + 1)))",
+             "forall(lambda k, a: implies((k, a) in ATTR and not ((k, a) in old(ATTR)), TARGET is not None and a == payload(TARGET)), SKeyN, SAttr)",
+             "implies(TARGET is None, forall(lambda k, a: ((k, a) in ATTR) == ((k, a) in old(ATTR)) and ATTR[(k, a)] == old(ATTR)[(k, a)], SKeyN, SAttr))"],
+        modifies=['POS', 'ATTR'])},
+    canary=[("for new_idx, node_key in enumerate(node_order, 1):", "for new_idx, node_key in enumerate(node_order, 0):"),
+            ("molecule._node.move_to_end(node_key)", "molecule._node.move_to_end(node_order[0])"),
+            ("for new_idx, node_key in enumerate(node_order, 1):", "for new_idx, node_key in enumerate(node_order[1:], 1):")],
+)
+CONTRACTS.append(sort_atoms)
+
+
+def setup_kf(cx):
+    attrs = cx.val('attrs', TSeq(SAttr))
+    value_of = cx.uf('value_of', [SKeyN, SAttr], TOpt(SVal))     # graph.nodes[n].get(a): None when the atom lacks it
+    node_idx = cx.val('node_idx', SKeyN)
+
+    def node(e, k):
+        ke = to_z3(k, SKeyN)
+
+        def get(e2, a, d=None):
+            if d is not None:
+                raise EngineError('node.get with a default')
+            return SV(TOpt(SVal), value_of(ke, to_z3(a, SAttr)))
+        return Obj('atomdict', get=Builtin(get, 'node.get'))
+    return dict(graph=Obj('Molecule', nodes=Obj('NodeView', __getitem__=Builtin(node, 'graph.nodes[]'))), node_idx=node_idx, attrs=attrs)
+
+
+keyfunc = FunctionContract(
+    FS, '_keyfunc', 'C03', setup=setup_kf, spec_env=dict(SKeyN=SKeyN, SAttr=SAttr), result_ty=TSeq(TOpt(SVal)),
+    ensures=[
+        # the sort key of an atom: its values of the attributes asked for, in their order (None where it has none)
+        "len(result) == len(attrs)",
+        "forall(lambda j: implies(0 <= j and j < len(attrs), result[j] == value_of(node_idx, attrs[j])))",
+    ],
+    canary=[("for attr in attrs]", "for attr in attrs[1:]]"), ("graph.nodes[node_idx].get(attr)", "graph.nodes[node_idx].get(attrs[0])")],
+)
+CONTRACTS.append(keyfunc)
